@@ -46,8 +46,11 @@ def sepOf (opt : Opt) : Nat → Bytes := fun k =>
   | none => repeatBytes opt.delimiter k
 
 /-- the specification in field mode, passes made explicit -/
+def specBofs (opt : Opt) (n : Nat) : List BoF :=
+  if opt.complement then mapBounds (complementBound · n) opt.bounds.list else opt.bounds.list
+
 theorem specRecord_fields (line : Bytes) (opt : Opt) (hty : opt.boundsType = .fields)
-    (hjson : opt.json = false) (hcompl : opt.complement = false) :
+    (hjson : opt.json = false) :
     specRecord (cfgOf opt) line =
       if (trimmed opt line).isEmpty then (if opt.onlyDelimited then Run.empty else Run.ok [opt.eol.byte])
       else
@@ -55,13 +58,19 @@ theorem specRecord_fields (line : Bytes) (opt : Opt) (hty : opt.boundsType = .fi
           (tokenize opt.delimiter opt.greedyDelimiter opt.compressDelimiter (trimmed opt line)).numFields == 1
         then Run.empty
         else
+          if opt.complement && countBounds (specBofs opt
+            (tokenize opt.delimiter opt.greedyDelimiter opt.compressDelimiter (trimmed opt line)).numFields) == 0
+          then Run.fail
+          else
           (emit (cfgOf opt)
             (tokenize opt.delimiter opt.greedyDelimiter opt.compressDelimiter (trimmed opt line))
-            (sepOf opt) (opt.replaceDelimiter.getD opt.delimiter) opt.bounds.list).seq
+            (sepOf opt) (opt.replaceDelimiter.getD opt.delimiter)
+            (specBofs opt
+              (tokenize opt.delimiter opt.greedyDelimiter opt.compressDelimiter (trimmed opt line)).numFields)).seq
               (Run.ok [opt.eol.byte]) := by
-  unfold specRecord trimmed
-  simp only [cfgOf, hty, hjson, hcompl]
-  cases opt.trim <;> simp <;> rfl
+  unfold specRecord trimmed specBofs
+  simp only [cfgOf, hty, hjson]
+  cases opt.trim <;> cases opt.complement <;> simp <;> rfl
 
 /-! ## the ranges against the tokens -/
 
@@ -244,26 +253,336 @@ theorem outputLoop_eq_emit (opt : Opt) (line : Bytes) (fields : List Range) (tok
       | some f => simp
       | none => cases opt.fallbackOob <;> simp
 
-/-- everything after the ranges are known, without `--json` and `-m` -/
-theorem emitRecord_plain (line : Bytes) (fields : List Range) (opt : Opt) (eol : Bytes)
-    (hjson : opt.json = false) (hcompl : opt.complement = false)
-    (hty : opt.boundsType = .fields) :
+/-- everything after the ranges are known, without `--json` -/
+theorem emitRecord_fields (line : Bytes) (fields : List Range) (opt : Opt) (eol : Bytes)
+    (hjson : opt.json = false) (hty : opt.boundsType = .fields) :
     emitRecord line fields opt false eol =
       if opt.onlyDelimited && fields.length == 1 then Run.empty
-      else (outputLoop line fields fields.length opt false opt.bounds.list).seq (Run.ok eol) := by
+      else
+        match (if opt.complement then complementList opt.bounds.list fields.length
+               else .ok opt.bounds) with
+        | .fail => Run.fail
+        | .panic => Run.panic
+        | .ok bounds =>
+          (outputLoop line fields fields.length opt false bounds.list).seq (Run.ok eol) := by
   unfold emitRecord
-  simp [hjson, hcompl, hty]
+  simp only [hjson, hty]
+  split
+  · rfl
+  · simp only [Bool.false_or, Bool.false_eq_true, if_false, Run.empty_seq, Run.seq_empty]
+    split <;> simp [*]
+
+/-! ## `markLast` establishes `LastMarked` -/
+
+theorem countBounds_eq_zero_of_markLast_none : ∀ (l : List BoF), markLast l = none → countBounds l = 0
+  | [], _ => rfl
+  | .filler f :: t, h => by
+    simp only [markLast, Option.map_eq_none_iff] at h
+    simpa [countBounds] using countBounds_eq_zero_of_markLast_none t h
+  | .bound b :: t, h => by
+    simp only [markLast] at h
+    cases hm : markLast t <;> simp [hm] at h
+
+theorem countBounds_pos_of_markLast_some : ∀ (l l' : List BoF), markLast l = some l' →
+    0 < countBounds l ∧ countBounds l' = countBounds l
+  | [], _, h => by simp [markLast] at h
+  | .filler f :: t, l', h => by
+    simp only [markLast, Option.map_eq_some_iff] at h
+    obtain ⟨t', ht, rfl⟩ := h
+    simpa [countBounds] using countBounds_pos_of_markLast_some t t' ht
+  | .bound b :: t, l', h => by
+    simp only [markLast] at h
+    cases hm : markLast t with
+    | none =>
+      simp only [hm, Option.some.injEq] at h
+      subst h
+      simp [countBounds]
+    | some t' =>
+      simp only [hm, Option.some.injEq] at h
+      subst h
+      have := countBounds_pos_of_markLast_some t t' hm
+      simp [countBounds, this.2]
+
+/-- a list whose `is_last` flags are all clear (what the parser and the `-m` / unpack rewrites
+    produce) -/
+def NoneMarked (l : List BoF) : Prop := ∀ b, BoF.bound b ∈ l → b.isLast = false
+
+theorem lastMarked_of_noneMarked_of_no_bounds : ∀ (l : List BoF), countBounds l = 0 → LastMarked l
+  | [], _ => trivial
+  | .filler _ :: t, h => lastMarked_of_noneMarked_of_no_bounds t (by simpa [countBounds] using h)
+  | .bound _ :: t, h => by simp [countBounds] at h
+
+/-- **`markLast` (hence `fromVec`, `from_str`) produces a `LastMarked` list** from a list whose
+    flags are clear -/
+theorem markLast_lastMarked : ∀ (l l' : List BoF), NoneMarked l → markLast l = some l' → LastMarked l'
+  | [], _, _, h => by simp [markLast] at h
+  | .filler f :: t, l', hn, h => by
+    simp only [markLast, Option.map_eq_some_iff] at h
+    obtain ⟨t', ht, rfl⟩ := h
+    exact markLast_lastMarked t t' (fun b hb => hn b (List.mem_cons_of_mem _ hb)) ht
+  | .bound b :: t, l', hn, h => by
+    have hb : b.isLast = false := hn b (List.mem_cons_self ..)
+    simp only [markLast] at h
+    cases hm : markLast t with
+    | none =>
+      simp only [hm, Option.some.injEq] at h
+      subst h
+      have h0 := countBounds_eq_zero_of_markLast_none t hm
+      exact ⟨by simp [h0], lastMarked_of_noneMarked_of_no_bounds t h0⟩
+    | some t' =>
+      simp only [hm, Option.some.injEq] at h
+      subst h
+      have hc := countBounds_pos_of_markLast_some t t' hm
+      refine ⟨?_, markLast_lastMarked t t' (fun b hb => hn b (List.mem_cons_of_mem _ hb)) hm⟩
+      rw [hb, hc.2]
+      constructor
+      · intro h; cases h
+      · intro h; omega
+
+theorem fromVec_lastMarked (l : List BoF) (ubl : UserBoundsList) (hn : NoneMarked l)
+    (h : fromVec l = .ok ubl) : LastMarked ubl.list := by
+  unfold fromVec at h
+  cases hm : markLast l with
+  | none => simp [hm] at h
+  | some l' =>
+    simp only [hm, Res.ok.injEq] at h
+    subst h
+    exact markLast_lastMarked l l' hn hm
+
+/-! ## `-m`: the complemented list -/
+
+/-- forget the `is_last` flag -/
+def eraseLast : BoF → BoF
+  | .bound b => .bound { b with isLast := false }
+  | .filler f => .filler f
+
+theorem countBounds_map_eraseLast : ∀ (l : List BoF), countBounds (l.map eraseLast) = countBounds l
+  | [] => rfl
+  | .filler _ :: t => by simpa [countBounds, eraseLast] using countBounds_map_eraseLast t
+  | .bound _ :: t => by simpa [countBounds, eraseLast] using countBounds_map_eraseLast t
+
+/-- the specification never looks at `is_last` -/
+theorem emit_eraseLast (cfg : Cfg) (tok : Tok) (sep : Nat → Bytes) (j : Bytes) :
+    ∀ (l : List BoF), emit cfg tok sep j (l.map eraseLast) = emit cfg tok sep j l
+  | [] => rfl
+  | .filler f :: t => by
+    simp only [List.map_cons, eraseLast, emit, emit_eraseLast cfg tok sep j t]
+  | .bound b :: t => by
+    simp only [List.map_cons, eraseLast, emit, emit_eraseLast cfg tok sep j t,
+      countBounds_map_eraseLast]
+    rfl
+
+theorem markLast_eraseLast : ∀ (l l' : List BoF), markLast l = some l' →
+    l'.map eraseLast = l.map eraseLast
+  | [], _, h => by simp [markLast] at h
+  | .filler f :: t, l', h => by
+    simp only [markLast, Option.map_eq_some_iff] at h
+    obtain ⟨t', ht, rfl⟩ := h
+    simp [markLast_eraseLast t t' ht]
+  | .bound b :: t, l', h => by
+    simp only [markLast] at h
+    cases hm : markLast t with
+    | none =>
+      simp only [hm, Option.some.injEq] at h
+      subst h
+      simp [eraseLast]
+    | some t' =>
+      simp only [hm, Option.some.injEq] at h
+      subst h
+      simp [markLast_eraseLast t t' hm]
+
+def AllNonzero (l : List BoF) : Prop := ∀ b, BoF.bound b ∈ l → b.Nonzero
+
+theorem allNonzero_of_eraseLast_eq {l l' : List BoF} (h : l'.map eraseLast = l.map eraseLast)
+    (hl : AllNonzero l) : AllNonzero l' := by
+  intro b hb
+  have : eraseLast (.bound b) ∈ l.map eraseLast := by
+    rw [← h]; exact List.mem_map_of_mem hb
+  obtain ⟨x, hx, hxe⟩ := List.mem_map.mp this
+  cases x with
+  | filler f => simp [eraseLast] at hxe
+  | bound b0 =>
+    have h0 := hl b0 hx
+    simp only [eraseLast, BoF.bound.injEq, UserBounds.mk.injEq] at hxe
+    exact ⟨hxe.1 ▸ h0.1, hxe.2.1 ▸ h0.2⟩
+
+theorem complementBound_nonzero (b : UserBounds) (n : Nat) (hz : b.Nonzero) :
+    ∀ c ∈ complementBound b n, c.Nonzero := by
+  intro c hc
+  unfold complementBound at hc
+  cases hres : resolve b n with
+  | none =>
+    simp only [hres, List.mem_singleton] at hc
+    subst hc
+    exact hz
+  | some p =>
+    obtain ⟨lo, hi⟩ := p
+    simp only [hres, List.mem_append] at hc
+    rcases hc with hc | hc
+    · by_cases h1 : 1 < lo
+      · simp only [h1, if_true, List.mem_singleton] at hc
+        subst hc
+        exact ⟨by simp [Side.Nonzero], by simp only [Side.Nonzero]; omega⟩
+      · simp [h1] at hc
+    · by_cases h2 : hi < n
+      · simp only [h2, if_true, List.mem_singleton] at hc
+        subst hc
+        exact ⟨by simp only [Side.Nonzero]; omega, by simp only [Side.Nonzero]; omega⟩
+      · simp [h2] at hc
+
+/-- the engine's complement of one element is the specification's -/
+theorem complementBof_eq_spec (b : UserBounds) (n : Nat) (hz : b.Nonzero) :
+    complementBof n (.bound b) = (complementBound b n).map .bound := by
+  have hr := tryIntoRange_eq_resolve b n hz
+  cases hres : resolve b n with
+  | none =>
+    rw [hres] at hr
+    simp [complementBof, UserBounds.complement, hr, complementBound, hres]
+  | some p =>
+    obtain ⟨lo, hi⟩ := p
+    rw [hres] at hr
+    simp only [Option.map_some] at hr
+    -- `UserBounds.complement` against `complementBound`, as in C15
+    have hzl : b.l ≠ .some 0 := by
+      intro h0; have := hz.1; rw [h0] at this; exact this rfl
+    have hb := tryIntoRange_bounds b n (lo - 1) hi hzl hr
+    obtain ⟨_, hlo⟩ := resolve_some hres
+    have hcompl : b.complement n = some (complementBound b n) := by
+      simp only [UserBounds.complement, hr, Option.map_some, complementBound, hres]
+      congr 1
+      unfold complementStdRange
+      by_cases h1 : lo - 1 = 0
+      · have hlo1 : ¬ (1 < lo) := by omega
+        rw [h1]
+        simp only [hlo1, if_false, List.nil_append]
+        by_cases h2 : hi = n
+        · have : ¬ (hi < n) := by omega
+          simp [h2]
+        · have : hi < n := by omega
+          simp only [h2, if_false, this, if_true, List.map_cons, List.map_nil, UserBounds.ofRange]
+      · have hlo1 : 1 < lo := by omega
+        obtain ⟨k, hk⟩ : ∃ k, lo - 1 = k + 1 := ⟨lo - 2, by omega⟩
+        rw [hk]
+        simp only [hlo1, if_true]
+        have e1 : ((0 : Nat) : Int) + 1 = 1 := by omega
+        have e2 : ((k + 1 : Nat) : Int) = (lo : Int) - 1 := by omega
+        by_cases h2 : hi = n
+        · have : ¬ (hi < n) := by omega
+          simp only [h2, if_true, List.map_cons, List.map_nil, UserBounds.ofRange, e1, e2]
+          simp
+        · have : hi < n := by omega
+          simp only [h2, if_false, this, if_true, List.map_cons, List.map_nil, UserBounds.ofRange,
+            List.cons_append, List.nil_append, e1, e2]
+    simp only [complementBof, hcompl]
+
+theorem flatMap_complementBof_eq (n : Nat) : ∀ (l : List BoF), AllNonzero l →
+    l.flatMap (complementBof n) = mapBounds (complementBound · n) l
+  | [], _ => rfl
+  | .filler f :: t, h => by
+    simp only [List.flatMap_cons, complementBof, mapBounds, List.singleton_append]
+    rw [flatMap_complementBof_eq n t (fun b hb => h b (List.mem_cons_of_mem _ hb))]
+  | .bound b :: t, h => by
+    simp only [List.flatMap_cons, mapBounds]
+    rw [complementBof_eq_spec b n (h b (List.mem_cons_self ..)),
+      flatMap_complementBof_eq n t (fun b hb => h b (List.mem_cons_of_mem _ hb))]
+
+theorem mapBounds_complement_nonzero (n : Nat) : ∀ (l : List BoF), AllNonzero l →
+    AllNonzero (mapBounds (complementBound · n) l)
+  | [], _ => by intro b hb; simp [mapBounds] at hb
+  | .filler f :: t, h => by
+    intro b hb
+    simp only [mapBounds, List.mem_cons, reduceCtorEq, false_or] at hb
+    exact mapBounds_complement_nonzero n t (fun b hb => h b (List.mem_cons_of_mem _ hb)) b hb
+  | .bound b0 :: t, h => by
+    intro b hb
+    simp only [mapBounds, List.mem_append, List.mem_map, BoF.bound.injEq] at hb
+    rcases hb with ⟨c, hc, rfl⟩ | hb
+    · exact complementBound_nonzero b0 n (h b0 (List.mem_cons_self ..)) c hc
+    · exact mapBounds_complement_nonzero n t (fun b hb => h b (List.mem_cons_of_mem _ hb)) b hb
+
+theorem mapBounds_complement_noneMarked (n : Nat) : ∀ (l : List BoF),
+    NoneMarked (mapBounds (complementBound · n) l)
+  | [] => by intro b hb; simp [mapBounds] at hb
+  | .filler f :: t => by
+    intro b hb
+    simp only [mapBounds, List.mem_cons, reduceCtorEq, false_or] at hb
+    exact mapBounds_complement_noneMarked n t b hb
+  | .bound b0 :: t => by
+    intro b hb
+    simp only [mapBounds, List.mem_append, List.mem_map, BoF.bound.injEq] at hb
+    rcases hb with ⟨c, hc, rfl⟩ | hb
+    · unfold complementBound at hc
+      cases hres : resolve b0 n with
+      | none => simp only [hres, List.mem_singleton] at hc; subst hc; rfl
+      | some p =>
+        obtain ⟨lo, hi⟩ := p
+        simp only [hres, List.mem_append] at hc
+        rcases hc with hc | hc
+        · split at hc
+          · simp only [List.mem_singleton] at hc; subst hc; rfl
+          · simp at hc
+        · split at hc
+          · simp only [List.mem_singleton] at hc; subst hc; rfl
+          · simp at hc
+    · exact mapBounds_complement_noneMarked n t b hb
+
+theorem boundsOnly_isEmpty_iff : ∀ (l : List BoF), (boundsOnly l).isEmpty = (countBounds l == 0)
+  | [] => rfl
+  | .filler _ :: t => by simpa [boundsOnly, countBounds] using boundsOnly_isEmpty_iff t
+  | .bound _ :: t => by simp [boundsOnly, countBounds]
+
+/-- everything after the ranges are known is the tail of the specification -/
+theorem emitRecord_eq_spec (opt : Opt) (line : Bytes) (fields : List Range) (tok : Tok)
+    (hR : Refines opt.delimiter line fields tok) (hd : opt.delimiter ≠ [])
+    (hre : opt.regexBag = none) (hty : opt.boundsType = .fields) (hjson : opt.json = false)
+    (hz : AllNonzero opt.bounds.list) (hL : LastMarked opt.bounds.list) :
+    emitRecord line fields opt false [opt.eol.byte] =
+      if opt.onlyDelimited && tok.numFields == 1 then Run.empty
+      else
+        if opt.complement && countBounds (specBofs opt tok.numFields) == 0 then Run.fail
+        else
+          (emit (cfgOf opt) tok (sepOf opt) (opt.replaceDelimiter.getD opt.delimiter)
+            (specBofs opt tok.numFields)).seq (Run.ok [opt.eol.byte]) := by
+  rw [emitRecord_fields _ _ _ _ hjson hty, ← hR.len]
+  have hloop := outputLoop_eq_emit opt line fields tok hR hd hre hty hjson
+  by_cases hs : (opt.onlyDelimited && fields.length == 1) = true
+  · rw [if_pos hs, if_pos hs]
+  · rw [if_neg hs, if_neg hs]
+    unfold specBofs
+    cases hc : opt.complement with
+    | false =>
+      simp only [Bool.false_and, Bool.false_eq_true, if_false]
+      rw [hloop _ hz hL]
+    | true =>
+      simp only [if_true, Bool.true_and]
+      unfold complementList
+      simp only []
+      rw [flatMap_complementBof_eq _ _ hz, boundsOnly_isEmpty_iff]
+      by_cases h0 : (countBounds (mapBounds (complementBound · fields.length) opt.bounds.list) == 0) = true
+      · rw [if_pos h0, if_pos h0]
+      · rw [if_neg h0, if_neg h0]
+        unfold fromVec
+        simp only []
+        cases hm : markLast (mapBounds (complementBound · fields.length) opt.bounds.list) with
+        | none =>
+          have := countBounds_eq_zero_of_markLast_none _ hm
+          simp [this] at h0
+        | some l' =>
+          simp only []
+          have he := markLast_eraseLast _ _ hm
+          have hnz := allNonzero_of_eraseLast_eq he (mapBounds_complement_nonzero _ _ hz)
+          have hlm := markLast_lastMarked _ _ (mapBounds_complement_noneMarked _ _) hm
+          rw [hloop l' hnz hlm, ← emit_eraseLast _ _ _ _ l', he, emit_eraseLast]
 
 /-- **C01, one record.**  The general engine in field mode with a literal non-empty delimiter —
-    any of `-g -p -t -s -j -r`, fallbacks, format fillers; no `--json`, no `-m`, no regex —
-    writes for every record exactly what the per-record specification says, and ends as it says
-    (never a panic). -/
+    any of `-g -p -t -s -j -r -m`, fallbacks, format fillers; no `--json`, no regex — writes for
+    every record exactly what the per-record specification says, and ends as it says (never a
+    panic). -/
 theorem cutStr_eq_spec (opt : Opt) (line : Bytes) (hd : opt.delimiter ≠ [])
     (hre : opt.regexBag = none) (hty : opt.boundsType = .fields) (hjson : opt.json = false)
-    (hcompl : opt.complement = false)
-    (hz : ∀ b, BoF.bound b ∈ opt.bounds.list → b.Nonzero) (hL : LastMarked opt.bounds.list) :
+    (hz : AllNonzero opt.bounds.list) (hL : LastMarked opt.bounds.list) :
     (cutStrCore line opt [opt.eol.byte]).1 = specRecord (cfgOf opt) line := by
-  rw [cutStrCore_fields line opt _ hre hty, specRecord_fields line opt hty hjson hcompl]
+  rw [cutStrCore_fields line opt _ hre hty, specRecord_fields line opt hty hjson]
   by_cases he : (trimmed opt line).isEmpty = true
   · rw [if_pos he, if_pos he]
     cases opt.onlyDelimited <;> simp
@@ -271,7 +590,27 @@ theorem cutStr_eq_spec (opt : Opt) (line : Bytes) (hd : opt.delimiter ≠ [])
     have hne : trimmed opt line ≠ [] := by
       intro h; rw [h] at he; exact he rfl
     have hR := refines_engine opt (trimmed opt line) hd hne
-    rw [emitRecord_plain _ _ _ _ hjson hcompl hty,
-      outputLoop_eq_emit opt _ _ _ hR hd hre hty hjson opt.bounds.list hz hL, hR.len]
+    exact emitRecord_eq_spec opt _ _ _ hR hd hre hty hjson hz hL
+
+theorem cutRecords_eq_spec (opt : Opt) (hd : opt.delimiter ≠ [])
+    (hre : opt.regexBag = none) (hty : opt.boundsType = .fields) (hjson : opt.json = false)
+    (hz : AllNonzero opt.bounds.list) (hL : LastMarked opt.bounds.list) :
+    ∀ (recs : List Bytes) (f₀ : List Range) (b₀ : Bytes),
+      cutRecords opt recs f₀ b₀ = specRunRecords (cfgOf opt) recs
+  | [], _, _ => rfl
+  | r :: t, f₀, b₀ => by
+    have h1 : (cutStr r opt f₀ b₀ [opt.eol.byte]).1 = specRecord (cfgOf opt) r :=
+      cutStr_eq_spec opt r hd hre hty hjson hz hL
+    simp only [cutRecords, specRunRecords]
+    rw [h1, cutRecords_eq_spec opt hd hre hty hjson hz hL t]
+
+/-- **C01, the run.**  On a fault-free reader the general engine in field mode is the
+    specification: records in order, each by `specRecord`, stop at the first failure. -/
+theorem readAndCutStr_eq_specRun (opt : Opt) (input : Bytes) (hd : opt.delimiter ≠ [])
+    (hre : opt.regexBag = none) (hty : opt.boundsType = .fields) (hjson : opt.json = false)
+    (hz : AllNonzero opt.bounds.list) (hL : LastMarked opt.bounds.list) :
+    readAndCutStr opt input = specRun (cfgOf opt) input :=
+  cutRecords_eq_spec opt hd hre hty hjson hz hL _ [] []
+
 
 end Tuc
